@@ -1,1 +1,10 @@
 # property claims (exec'd by mkmanifest.py)
+NOTE = ('Trusted: Lean 4.33 kernel + axioms propext/Classical.choice/Quot.sound only (audited every run); the model is '
+        'hand-written and tied to /repo by the differential correspondence on generated cases through the public CLI, so '
+        'what the generators do not reach is not validated; Python re/int.to_bytes/PyYAML/click are modelled, not verified.')
+
+claim('C01', 'Lean 4 refinement proof (bit packer = specified bit string, field order) + differential correspondence',
+      'Kernel-checked theorems: for every field list the cursor-based packer emits exactly the bytes of the specified bit '
+      'string (sizes 1..inf, any alignment/endianness), reserved size = emitted size, field order = documented order under '
+      'both reverse options. Each run re-validates the model against the real CLI on generated ISAs/statements.',
+      NOTE + ' Operand text -> (code, argument) mapping per operand type is produced by the generator.')
